@@ -135,18 +135,19 @@ func (s *Set) GetTemplate(templatePath string) (t *Template, err error) {
 	return s.getSiblingTemplate(templatePath, "/", true)
 }
 
-func (s *Set) getSiblingTemplate(templatePath, siblingPath string, cacheAfterParsing bool) (t *Template, err error) {
+func (s *Set) getSiblingTemplate(templatePath, siblingPath string, cacheAfterParsing bool, parents ...string) (t *Template, err error) {
 	templatePath = filepath.ToSlash(templatePath)
 	siblingPath = filepath.ToSlash(siblingPath)
 	if !path.IsAbs(templatePath) {
 		siblingDir := path.Dir(siblingPath)
 		templatePath = path.Join(siblingDir, templatePath)
 	}
-	return s.getTemplate(templatePath, cacheAfterParsing)
+	return s.getTemplate(templatePath, cacheAfterParsing, parents...)
 }
 
 // same as GetTemplate, but doesn't cache a template when found through the loader.
-func (s *Set) getTemplate(templatePath string, cacheAfterParsing bool) (t *Template, err error) {
+// parents lists the templates whose extends/import clauses led to this lookup (innermost last).
+func (s *Set) getTemplate(templatePath string, cacheAfterParsing bool, parents ...string) (t *Template, err error) {
 	if !s.developmentMode {
 		t, found := s.getTemplateFromCache(templatePath)
 		if found {
@@ -154,7 +155,7 @@ func (s *Set) getTemplate(templatePath string, cacheAfterParsing bool) (t *Templ
 		}
 	}
 
-	t, err = s.getTemplateFromLoader(templatePath, cacheAfterParsing)
+	t, err = s.getTemplateFromLoader(templatePath, cacheAfterParsing, parents...)
 	if err == nil && cacheAfterParsing && !s.developmentMode {
 		s.cache.Put(templatePath, t)
 	}
@@ -172,18 +173,23 @@ func (s *Set) getTemplateFromCache(templatePath string) (t *Template, ok bool) {
 	return nil, false
 }
 
-func (s *Set) getTemplateFromLoader(templatePath string, cacheAfterParsing bool) (t *Template, err error) {
+func (s *Set) getTemplateFromLoader(templatePath string, cacheAfterParsing bool, parents ...string) (t *Template, err error) {
 	// check path with all possible extensions in loader
 	for _, extension := range s.extensions {
 		canonicalPath := templatePath + extension
 		if found := s.loader.Exists(canonicalPath); found {
-			return s.loadFromFile(canonicalPath, cacheAfterParsing)
+			return s.loadFromFile(canonicalPath, cacheAfterParsing, parents...)
 		}
 	}
 	return nil, fmt.Errorf("template %s could not be found", templatePath)
 }
 
-func (s *Set) loadFromFile(templatePath string, cacheAfterParsing bool) (template *Template, err error) {
+func (s *Set) loadFromFile(templatePath string, cacheAfterParsing bool, parents ...string) (template *Template, err error) {
+	for _, parent := range parents {
+		if parent == templatePath {
+			return nil, fmt.Errorf("template %s extends or imports itself (through %v)", templatePath, parents)
+		}
+	}
 	f, err := s.loader.Open(templatePath)
 	if err != nil {
 		return nil, err
@@ -193,7 +199,7 @@ func (s *Set) loadFromFile(templatePath string, cacheAfterParsing bool) (templat
 	if err != nil {
 		return nil, err
 	}
-	return s.parse(templatePath, string(content), cacheAfterParsing)
+	return s.parse(templatePath, string(content), cacheAfterParsing, parents...)
 }
 
 // Parse parses `contents` as if it were located at `templatePath`, but won't put the result into the cache.
